@@ -353,10 +353,11 @@ def exec_ops(case, o: Outcome):
 # ------------------------------------------------------------------------------------------- solve_vrptw end to end
 
 
-def run_vrptw(case, policy, o: Outcome | None, ref: Ref, record=True):
+def run_vrptw(case, policy, o: Outcome | None, ref: Ref, record=True, entropy_salt=0):
     inst = case["inst"]
     m, custs, vehs = build_problem(inst)
     plan = seams.make_rng_plan(case.get("rng"))
+    plan.entropy ^= entropy_salt  # an un-seeded generator gets other entropy every run (only matters if the caller's seed is dropped)
     clock = seams.SimClock(case.get("clock"))
     prog = seams.Progressor(policy, clock)
     w = dict(DEFAULT_W)
@@ -472,7 +473,7 @@ def exec_vrptw(case, o: Outcome):
     if base["plan"].unseeded_used:
         o.fault("rng_unseeded")
     # reproducibility under the same simulated entropy
-    again = run_vrptw(case, policy, o, ref)
+    again = run_vrptw(case, policy, o, ref, entropy_salt=0x5BD1E995 if case.get("seed") is not None else 0)
     def summ(r):
         if r["exc"] is not None or r["res"] is None:
             return ("exc", repr(r["exc"]))
@@ -530,9 +531,10 @@ def validate_schedule(jobs, sched):
     return None
 
 
-def run_jobshop(case, policy, jobs):
+def run_jobshop(case, policy, jobs, entropy_salt=0):
     m = solvor_mod("job_shop")
     plan = seams.make_rng_plan(case.get("rng"))
+    plan.entropy ^= entropy_salt  # an un-seeded generator gets other entropy every run (only matters if the caller's seed is dropped)
     clock = seams.SimClock(case.get("clock"))
     prog = seams.Progressor(policy, clock)
     res = exc = None
@@ -581,7 +583,7 @@ def exec_jobshop(case, o: Outcome):
         o.fault("rng_boundary", base["plan"].fired)
     if base["plan"].unseeded_used:
         o.fault("rng_unseeded")
-    again = run_jobshop(case, policy, jobs)
+    again = run_jobshop(case, policy, jobs, entropy_salt=0x5BD1E995 if case.get("seed") is not None else 0)
 
     def summ(r):
         if r["exc"] is not None:
